@@ -79,6 +79,19 @@ RECURSIVE NumOf(_)
 NumOf(s) == IF s = "" THEN 0 ELSE 10 * NumOf(SubSeq(s, 1, Len(s) - 1)) + DigitVal[Ch(s, Len(s))]
 RECURSIVE StrOfNat(_)
 StrOfNat(n) == IF n < 10 THEN DigitStr[n + 1] ELSE StrOfNat(n \div 10) \o DigitStr[(n % 10) + 1]
+(* decimal strings compared without computing their (possibly huge) value *)
+RECURSIVE StripZeros(_)
+StripZeros(s) == IF Len(s) > 1 /\ Ch(s, 1) = "0" THEN StripZeros(Tail1(s)) ELSE s
+RECURSIVE LexLeq(_, _)
+LexLeq(a, b) ==     \* equal lengths
+  IF a = "" THEN TRUE
+  ELSE IF DigitVal[Ch(a, 1)] < DigitVal[Ch(b, 1)] THEN TRUE
+  ELSE IF DigitVal[Ch(a, 1)] > DigitVal[Ch(b, 1)] THEN FALSE
+  ELSE LexLeq(Tail1(a), Tail1(b))
+DecLeq(a, b) == LET x == StripZeros(a) y == StripZeros(b)
+                IN Len(x) < Len(y) \/ (Len(x) = Len(y) /\ LexLeq(x, y))
+(* a file descriptor is a (32-bit) int *)
+FdFits(s) == DecLeq(s, "2147483647")
 MinOf(S) == CHOOSE i \in S : \A j \in S : i <= j
 Find(s, c) == LET I == {i \in 1..Len(s) : Ch(s, i) = c} IN IF I = {} THEN 0 ELSE MinOf(I)
 
@@ -298,6 +311,9 @@ RedirP(T, p) ==
       o == Tok(T, q)
       w == Tok(T, q + 1)
   IN IF w.k # "w" \/ IsIoNum(T, q + 1) THEN Err      \* the operand is a WORD, not an IO_NUMBER
+     \* An IO_NUMBER that does not fit the descriptor type: a syntax error or a tree
+     \* (that round-trips, Trace_Syntax!RoundTrip) -- the grammar has no opinion.
+     ELSE IF q # p /\ ~FdFits(LitOf(Tok(T, p))) THEN Un
      ELSE R("ok", q + 2, [fd |-> IF q = p THEN -1 ELSE NumOf(LitOf(Tok(T, p))), op |-> o.s,
                           w |-> WordTree(w.a, "front"), hd |-> o.s \in HereOps, body |-> o.b])
 
@@ -715,6 +731,7 @@ Redirs ==   \* alternatives of a redirection
   IF Lex
   THEN {<<Op(o), WL("f")>> : o \in FileOps} \cup {<<Glued(WL("2")), Op(o), WL("f")>> : o \in FileOps}
        \cup {<<Op(">"), WL("-")>>, <<Op("<&"), WL("2")>>, <<Glued(WL("10")), Op(">"), WL("f")>>,
+             <<Glued(WL("2147483647")), Op(">"), WL("f")>>,      \* the largest descriptor
              <<Glued(WL("0")), Op("<"), W(<<Raw("x")>>)>>}
        \cup {<<HereOp(h[1], h[3]), h[2]>> : h \in HereDocs}
        \cup {<<Glued(WL("3")), HereOp("<<", UBody), WL("E")>>}
@@ -844,8 +861,14 @@ Expand(f, i, alt) == SubSeq(f, 1, i - 1) \o alt \o SubSeq(f, i + 1, Len(f))
 
 (* Token soup: every sequence over the alphabet, including reserved words  *)
 (* in the wrong place, unbalanced brackets and text that does not lex.     *)
+(* IO numbers around the limits of the descriptor type, and the process     *)
+(* redirection operators `<(` `>(` (documented as not supported): totality  *)
+(* and the round trip of whatever tree comes out are all that is required   *)
+BigNums == {"2147483648", "4294967294", "4294967295", "4294967296", "1234567890123456789012345678901234567890"}
 SoupFull ==
   { Op(";"), Op("&"), Op("&&"), Op("|"), Op("("), Op(")"), Op("\n"), Op(";;"), Op(">"), Op("<<<"),
+    Op("<("), Op(">("), Glued(WL("2147483647")) } \cup {Glued(WL(n)) : n \in BigNums} \cup {
+
     HereOp("<<", <<Lit("b\n")>>),
     WL("a"), WL("x=1"), Glued(WL("x=")), WL("2"), Glued(WL("2")), WL("~"),
     WL("!"), WL("{"), WL("}"), WL("if"), WL("then"), WL("else"), WL("elif"), WL("fi"), WL("for"), WL("in"),
@@ -853,7 +876,7 @@ SoupFull ==
     BadTok("'a"), BadTok("\"a"), BadTok("$(a"), BadTok("${x"), BadTok("`a"), BadTok("$((1"), BadTok("$'a"),
     BadTok("${"), BadTok("\\") }
 SoupSmall ==
-  { Op(";"), Op("&"), Op("|"), Op("("), Op(")"), Op("\n"), Op(";;"), Op(">"),
+  { Op(";"), Op("&"), Op("|"), Op("("), Op(")"), Op("\n"), Op(";;"), Op(">"), Op(">("), Glued(WL("4294967294")),
     WL("a"), Glued(WL("x=")), Glued(WL("2")),
     WL("!"), WL("{"), WL("}"), WL("if"), WL("then"), WL("fi"), WL("for"), WL("in"),
     WL("do"), WL("done"), WL("case"), WL("esac"), BadTok("'a"), BadTok("${") }
